@@ -832,7 +832,7 @@ class Interpreter:
 
     def _verif_execute_once(self) -> Optional[MacroStep]:
         record = {'t': 'exec', 'iid': self._verif_id, 'clock': self.clock.time,
-                  'sig': _verif.signature(self._statechart),
+                  'sig': _verif.signature(self._statechart), 'thread': _verif.thread(),
                   'pre': {'conf': self.configuration, 'final': self.final, 'time': self.time}}
         del self._verif_guards[:]
         returned = None
@@ -851,7 +851,7 @@ class Interpreter:
 
     def _verif_queue_event(self, event: Event) -> None:
         if not isinstance(event, InternalEvent):
-            _verif.emit({'t': 'queue', 'iid': self._verif_id, 'name': event.name,
+            _verif.emit({'t': 'queue', 'iid': self._verif_id, 'name': event.name, 'thread': _verif.thread(),
                          'delay': getattr(event, 'delay', 0), 'time': self.time})
         type(self)._queue_event(self, event)
 
